@@ -94,9 +94,48 @@ def load_lazy(tests_str, vm_strs, param_dict):
     return graph
 
 
+_EXPANSION = {}
+
+
+def expansion_block():
+    """The statements `traverse_object_trees` executes for every (parents, siblings, current) the lazy parser yields - taken
+    from the CURRENT source of /repo (the body of its `for … in self.parse_paths_to_object_roots(…)` loop, compiled as a
+    function in the module's own namespace), so that the expansion here is the code's and not a copy of it."""
+    if "fn" in _EXPANSION:
+        return _EXPANSION["fn"]
+    import ast
+    import inspect
+    import textwrap
+    import avocado_i2n.cartgraph.graph as graph_mod
+    G, N, O, W, P = cartgraph()
+    tree = ast.parse(textwrap.dedent(inspect.getsource(G.TestGraph.traverse_object_trees)))
+    loops = [n for n in ast.walk(tree) if isinstance(n, ast.For) and isinstance(n.iter, ast.Call) and
+             isinstance(n.iter.func, ast.Attribute) and n.iter.func.attr == "parse_paths_to_object_roots"]
+    if len(loops) != 1:
+        raise RuntimeError("traverse_object_trees no longer has exactly one loop over parse_paths_to_object_roots")
+    loop = loops[0]
+    targets = [t.id for t in loop.target.elts]
+    free = {n.id for st in loop.body for n in ast.walk(st) if isinstance(n, ast.Name) and isinstance(n.ctx, ast.Load)}
+    stored = {n.id for st in loop.body for n in ast.walk(st) if isinstance(n, ast.Name) and isinstance(n.ctx, ast.Store)}
+    known = set(targets) | {"self", "root"} | stored | set(vars(graph_mod))
+    unknown = sorted(v for v in free - known if v not in dir(__import__("builtins")))
+    if unknown:
+        raise RuntimeError(f"the expansion block of traverse_object_trees reads local names the harness does not provide: {unknown}")
+    fn = ast.FunctionDef(name="_verif_expansion_block", args=ast.arguments(
+        posonlyargs=[], args=[ast.arg(arg=a) for a in ["self", "root"] + targets], kwonlyargs=[], kw_defaults=[], defaults=[]),
+        body=loop.body, decorator_list=[], type_params=[])
+    mod = ast.fix_missing_locations(ast.Module(body=[fn], type_ignores=[]))
+    ns = {}
+    exec(compile(mod, "<expansion block of traverse_object_trees>", "exec"), vars(graph_mod), ns)
+    _EXPANSION["fn"] = ns["_verif_expansion_block"]
+    return _EXPANSION["fn"]
+
+
 def expand_lazy(graph, order, params=None):
     """Expand flat nodes in the given order of (flat node index, worker id) exactly as `traverse_object_trees`
-    does it: `parse_paths_to_object_roots`, object roots descend from the shared root, `validate`."""
+    does it: `parse_paths_to_object_roots`, then the code's own block (object roots - and tests without any setup - descend
+    from the shared root, `validate`)."""
+    block = expansion_block()
     root = graph.get_nodes("shared_root", "yes")[0]
     flats = [n for n in graph.nodes if n.is_flat() and not n.is_shared_root()]
     invalid = []
@@ -107,12 +146,9 @@ def expand_lazy(graph, order, params=None):
             continue
         graph._verif_steps.append((wid, flat.setless_form))
         for parents, siblings, current in graph.parse_paths_to_object_roots(flat, worker.net, params or {}):
-            for parent in parents:
-                if parent.is_object_root():
-                    parent.descend_from_node(root, parent.get_terminal_object())
             try:
-                current.validate()
-            except Exception as e:  # noqa
+                block(graph, root, parents, siblings, current)
+            except Exception as e:  # noqa   (the block ends with current.validate())
                 invalid.append((current.id, repr(e)))
     return invalid
 
